@@ -602,6 +602,7 @@ class BBNohShock(Obligation):
 
 
 class GuderleyJumps(Obligation):
+    replay_limit_s = 300        # the real Guderley solve takes 20-40 s on an idle core, several times that under load
     """Guderley: (i) the initial vector handed to solve_ivp at x = -1 is the strong-shock image of the undisturbed gas,
     (ii) the jump applied at the reflected shock x = B satisfies the general-strength Rankine-Hugoniot relations; both in the
     similarity variables (u - D = -(r/(lambda t)) (1 + V), c = -(r/(lambda t)) C, rho = rho0 R)."""
